@@ -1007,13 +1007,27 @@ M("c17-getstate-drops-start-value", "C17", ["C17.excluded", "C17.carry"],
         return state"""))
 M("c17-f12-reintroduced", "C17", ["C17.steps"],
   E(SM, """        self._engine = self._get_engine(rtc)
-        self._engine.start()
+        if not activated:
+            self._engine.start()
 
     def _get_initial_state""", """        self._engine = self._get_engine(rtc)
 
     def _get_initial_state"""), note="F12")
+M("c17-f24-reintroduced", ["C17", "C05"], ["C17.steps", "C05.start"],
+  E(SM, """        self._engine = self._get_engine(rtc)
+        if not activated:
+            self._engine.start()
+
+    def _get_initial_state""", """        self._engine = self._get_engine(rtc)
+        self._engine.start()
+
+    def _get_initial_state"""), note="F24: unconditional start() on restore re-enters the initial state of a clone whose model is still empty")
+M("c17-restore-start-polarity-inverted", "C17", ["C17.steps"],
+  E(SM, "        if not activated:\n            self._engine.start()", "        if activated:\n            self._engine.start()"))
+M("c17-activated-flag-by-truthiness", "C17", ["C17.steps"],
+  E(SM, '        state["_activated"] = self.current_state_value is not None', '        state["_activated"] = bool(self.current_state_value)'))
 M("c17-rtc-not-restored", "C17", ["C17.carry"],
-  E(SM, "        self._engine = self._get_engine(rtc)\n        self._engine.start()\n\n    def _get_initial_state", "        self._engine = self._get_engine(True)\n        self._engine.start()\n\n    def _get_initial_state"))
+  E(SM, "        self._engine = self._get_engine(rtc)\n        if not activated:", "        self._engine = self._get_engine(True)\n        if not activated:"))
 M("c17-shared-registry-with-original", "C17", ["C17.excluded", "C17.carry"],
   E(SM, """        del state["_callbacks"]
 """, ""),
